@@ -6,23 +6,26 @@
    total functions over the byte string of the file; their result type [out] has, besides [Ok] and [Err code],
    the outcomes the property forbids: [OOBW s] / [OOBR s] (store / load outside the buffer of site s, buffers
    carrying the sizes the C gives them), [Uninit], [Stale] (bytes served past what read() obtained), [Abort]
-   (assert), [UB] (signed overflow) and [OutOfFuel].  The full-strength statement
+   (assert), [UB] (signed overflow, shift of a negative char) and [OutOfFuel].
 
-        C13_full : for every byte string, the walk yields only Ok / Err outcomes
+   The transcription exists in two states, selected by the record [fixes] (one switch per repair of
+   notes/C13-fixes/NN-*.diff): [legacy] is the code before the repairs, [repaired] the code with them.
+   checks/C13.py finds out at run time which state the library built from the working tree is in (by running the
+   witness files of corpus/C13) and compares the library with the model in that state.
 
-   is FALSE of the faithful model: the _refuted theorems below exhibit witness files (built with the model's
-   encoders) for eight distinct forbidden outcomes; each witness is replayed on the implementation by
-   checks/C13.py (ASan / UBSan / assert / watchdog) on every run. *)
+     * for [legacy] the full-strength statement is FALSE: sections 5 below exhibit a witness file (built with the
+       model's encoders; every one is a file of corpus/C13 and is run on the implementation on every run) for each
+       forbidden outcome;
+     * for [repaired] it is TRUE: C13_no_oob (section 6), for every byte string and every fuel;
+       C13_link_recursion_bounded (section 7): the nesting of link chasing is cut by the code, the fuel of the model
+       is irrelevant from 101 units on.
+   What stays outside both: a client that walks a tree whose child pointers form a cycle never finishes
+   (C13_cycle_refuted holds in both states: the ADF library has no tree walk of its own, the recursive readers are
+   in cgns_io.c / cgns_internals.c and are covered by the mutation campaign only). *)
 From Coq Require Import ZArith List Bool.
 From CgnsV Require Import ListX Fuel AdfCodec AdfWalk AdfCodecProofs.
 Import ListNotations.
 Local Open Scope Z_scope.
-
-Definition C13_full : Prop :=
-  forall bs n, forallb (fun e => match e with
-                                 | EvN _ r => clean r | EvK0 r => clean r | EvK r => clean r | EvL r => clean r
-                                 | EvX r => clean r | EvM r => clean r | EvI r => clean r | EvG r => clean r
-                                 | EvFuel => false | _ => true end) (walk_events (walk n bs)) = true.
 
 (* ---- 1. C13_hex: ADFI_ASCII_Hex_2_unsigned_int accepts exactly 1..8 characters of [0-9A-Fa-f] whose positional
         value (defined independently of the C loop, [hexpos]) lies in [mn, mx]; the value is < 16^n; every other
@@ -44,16 +47,17 @@ Theorem C13_hex_total : forall mn mx s, (exists v, hex2uint mn mx s = Ok v) \/ (
 Proof. exact hex2uint_total. Qed.
 Print Assumptions C13_hex_total.
 
-(* ---- 2. C13_decode_total_sound *)
-(* node header: only Ok / Err / the tag-scan over-read; acceptance implies both boundary tags matched, every
-   ASCII-hex field consists of hex digits, every value is inside its declared range *)
-Theorem C13_decode_total : forall a d,
-  (exists h, dec_node_header a d = Ok h) \/ (exists e, dec_node_header a d = Err e) \/ dec_node_header a d = OOBR 5.
+(* ---- 2. C13_decode_total_sound (both states: [c] is arbitrary) *)
+(* node header: only Ok / Err / the tag-scan over-read (legacy only); acceptance implies both boundary tags matched,
+   every ASCII-hex field consists of hex digits, every value is inside its declared range *)
+Theorem C13_decode_total : forall c a d, fa_fmt a < 128 ->
+  (exists h, dec_node_header c a d = Ok h) \/ (exists e, dec_node_header c a d = Err e) \/ dec_node_header c a d = OOBR 5.
 Proof. exact node_header_total. Qed.
 Print Assumptions C13_decode_total.
 
-Theorem C13_decode_total_sound : forall a d h, dec_node_header a d = Ok h ->
-  tagscan d tag_NoDe = Ok true /\ tagscan (skipn 242 d) tag_TaiL = Ok true /\
+Theorem C13_decode_total_sound : forall c a d h, dec_node_header c a d = Ok h ->
+  tagcheck c d tag_NoDe = Ok true /\ tagcheck c (skipn 242 d) tag_TaiL = Ok true /\
+  (fx_snt c = true -> nh_nsub h <= nh_entries h) /\
   0 <= nh_nsub h < W32 /\ 0 <= nh_entries h < W32 /\ 0 <= nh_ndims h <= 12 /\ 0 <= nh_nchunks h <= 65535 /\
   Forall is_hexchar (sub d 68 8) /\ Forall is_hexchar (sub d 76 8) /\ Forall is_hexchar (sub d 128 2) /\
   Forall is_hexchar (sub d 226 4) /\
@@ -67,24 +71,24 @@ Theorem C13_decode_disk_pointer_sound : forall a s p, bytes_ok s -> dp_dec a s =
 Proof. exact dp_dec_sound. Qed.
 Print Assumptions C13_decode_disk_pointer_sound.
 
-Theorem C13_decode_file_header_sound : forall a d h, dec_file_header a d = Ok h ->
+Theorem C13_decode_file_header_sound : forall c a d h, dec_file_header c a d = Ok h ->
   sub d 32 4 = tag_AdF 0 /\ sub d 64 4 = tag_AdF 1 /\ sub d 96 4 = tag_AdF 2 /\ sub d 102 4 = tag_AdF 3 /\
   sub d 130 4 = tag_AdF 4 /\ sub d 182 4 = tag_AdF 5 /\ fa_fmt a <> 0 /\ fa_os a <> 0 /\
   dp_dec a (sub d 134 12) = Ok (fh_root h).
 Proof. exact file_header_sound. Qed.
 Print Assumptions C13_decode_file_header_sound.
 
-(* ---- 3. C13_codec_roundtrip: decode (encode x) = Ok x within the field ranges, both pointer formats *)
-Theorem C13_codec_roundtrip : forall a h, nh_ok a h -> dec_node_header a (enc_node_header a h) = Ok h.
+(* ---- 3. C13_codec_roundtrip: decode (encode x) = Ok x within the field ranges, both pointer formats, both states *)
+Theorem C13_codec_roundtrip : forall c a h, nh_ok a h -> dec_node_header c a (enc_node_header a h) = Ok h.
 Proof. exact node_header_roundtrip. Qed.
 Print Assumptions C13_codec_roundtrip.
 
-Theorem C13_codec_roundtrip_file_header : forall a h, fh_ok a h -> dec_file_header a (enc_file_header a h) = Ok h.
+Theorem C13_codec_roundtrip_file_header : forall c a h, fh_ok a h -> dec_file_header c a (enc_file_header a h) = Ok h.
 Proof. exact file_header_roundtrip. Qed.
 Print Assumptions C13_codec_roundtrip_file_header.
 
-Theorem C13_codec_roundtrip_free_chunk_table : forall a ps, length ps = 6%nat -> Forall (ptr_ok a) ps ->
-  dec_fct a (enc_fct a ps) = Ok ps.
+Theorem C13_codec_roundtrip_free_chunk_table : forall c a ps, length ps = 6%nat -> Forall (ptr_ok a) ps ->
+  dec_fct c a (enc_fct a ps) = Ok ps.
 Proof. exact fct_roundtrip. Qed.
 Print Assumptions C13_codec_roundtrip_free_chunk_table.
 
@@ -104,89 +108,189 @@ Print Assumptions C13_codec_roundtrip_hex.
 
 (* non-vacuity of the hypotheses: the root header of the valid witness file satisfies nh_ok and decodes *)
 Example C13_roundtrip_example :
-  exists h, dec_node_header wa (sub wit_valid 266 246) = Ok h /\ nh_nsub h = 2 /\ nh_entries h = 8 /\
+  exists h, dec_node_header repaired wa (sub wit_valid 266 246) = Ok h /\ nh_nsub h = 2 /\ nh_entries h = 8 /\
             enc_node_header wa h = sub wit_valid 266 246.
 Proof. eexists. split; [vm_compute; reflexivity|]. split; [reflexivity|]. split; [reflexivity|]. vm_compute. reflexivity. Qed.
 
 (* ---- 4. C13_walk_terminates (partial): what the library does at open -- cgio_check_file's ADF branch is a pure
         function of 32 bytes; ADF_Database_Open performs a fixed number of reads and decodes -- never runs out of
-        fuel, on EVERY byte string.  The recursive operations have no bound in the code: see C13_cycle_refuted
-        and C13_link_recursion_refuted. *)
-Theorem C13_walk_terminates : forall bs, nofuel (database_open bs).
+        fuel, on EVERY byte string, in both states. *)
+Theorem C13_walk_terminates : forall c bs, nofuel (database_open c bs).
 Proof. exact database_open_terminates. Qed.
 Print Assumptions C13_walk_terminates.
 
-(* ---- 5. C13_no_oob is FALSE of the faithful model: witnesses *)
-(* section 6 #12: valid file, root with two children, header field entries_for_sub_nodes 00000008 -> 00000002:
+(* ---- 5. the code before the repairs: one witness per forbidden outcome ([L] = [legacy]) *)
+(* 01. section 6 #12: valid file, root with two children, header field entries_for_sub_nodes 00000008 -> 00000002:
    ADFI_read_sub_node_table stores 8 entries into a 2-entry malloc *)
 Theorem C13_oob_refuted :
-  exists bs, on_open bs (fun f r => check_4_child_name f r [66] = OOBW 1 /\
-                                    get_node_id LINK_FUEL f r [66] = OOBW 1) False.
+  exists bs, on_open legacy bs (fun f r => check_4_child_name legacy f r [66] = OOBW 1 /\
+                                           get_node_id_top legacy f r [66] = OOBW 1) False.
 Proof. exact oob_write_refuted. Qed.
 Print Assumptions C13_oob_refuted.
 
 Example C13_oob_witness_is_one_field_from_valid :
   wit_oobw = firstn 342 wit_valid ++ hexenc 8 2 ++ skipn 350 wit_valid /\
-  on_open wit_valid (fun f r => check_4_child_name f r [66] = Ok (Some (0, 1130)) /\
-                                 get_node_id LINK_FUEL f r [66] = Ok (0, 1130)) False.
-Proof. split; [exact wit_oobw_is_one_field|exact (proj1 wit_valid_ok)]. Qed.
+  on_open legacy wit_valid (fun f r => check_4_child_name legacy f r [66] = Ok (Some (0, 1130)) /\
+                                        get_node_id_top legacy f r [66] = Ok (0, 1130)) False.
+Proof. split; [exact wit_oobw_is_one_field|exact (proj1 (wit_valid_ok legacy (or_introl eq_refl)))]. Qed.
 
-(* entries_for_sub_nodes = 0 with num_sub_nodes = 2: the name loop loads from a zero-size malloc *)
-Theorem C13_oob_read_refuted : exists bs, on_open bs (fun f r => check_4_child_name f r [66] = OOBR 1) False.
+(* 01. entries_for_sub_nodes = 0 with num_sub_nodes = 2: the name loop loads from a zero-size malloc *)
+Theorem C13_oob_read_refuted : exists bs, on_open legacy bs (fun f r => check_4_child_name legacy f r [66] = OOBR 1) False.
 Proof. exact oob_read_refuted. Qed.
 Print Assumptions C13_oob_read_refuted.
 
-(* a link node whose dimension value / data chunk (6000 bytes) exceed link_data[5122] *)
+(* 02. a data-chunk table whose end pointer claims 6 entries, read into malloc(2 entries) *)
+Theorem C13_data_chunk_table_refuted :
+  exists bs, on_open legacy bs (fun f r => match read_node_header legacy f (0, 884) with
+                                           | Ok h => is_out (read_all_data legacy f h [73; 52] 8) (OOBW 2)
+                                           | _ => False end) False.
+Proof. exact dct_refuted. Qed.
+Print Assumptions C13_data_chunk_table_refuted.
+
+(* 03. link nodes: payload of 6000 bytes; dimension 2^64-1 (negative as int); dimension 2^63 (0 as int, then
+   link_data[2^63] = 0); a five-token data type; a 3000-character file part *)
 Theorem C13_link_buffer_refuted :
-  exists bs, on_open bs (fun f r => get_link_path f (0, 884) 5200 5200 = OOBW 3 /\
-                                    match chase_link f (0, 884) with OOBW 3 => True | _ => False end) False.
+  exists bs, on_open legacy bs (fun f r => get_link_path legacy f (0, 884) 5200 5200 = OOBW 3 /\
+                                           is_out (chase_link legacy f (0, 884)) (OOBW 3)) False.
 Proof. exact link_buffer_refuted. Qed.
 Print Assumptions C13_link_buffer_refuted.
+Theorem C13_link_negative_length_refuted :
+  exists bs, on_open legacy bs (fun f r => is_out (chase_link legacy f (0, 884)) (OOBW 6)) False.
+Proof. exact link_negative_refuted. Qed.
+Print Assumptions C13_link_negative_length_refuted.
+Theorem C13_link_truncated_length_refuted :
+  exists bs, on_open legacy bs (fun f r => is_out (chase_link legacy f (0, 884)) (OOBW 3)) False.
+Proof. exact link_index_refuted. Qed.
+Print Assumptions C13_link_truncated_length_refuted.
+Theorem C13_link_tokens_refuted :
+  exists bs, on_open legacy bs (fun f r => get_link_path legacy f (0, 884) 5200 5200 = OOBW 4) False.
+Proof. exact link_tokens_refuted. Qed.
+Print Assumptions C13_link_tokens_refuted.
+Theorem C13_link_file_part_refuted :
+  exists bs, on_open legacy bs (fun f r => clean (get_link_path legacy f (0, 884) 5200 5200) = true /\
+                                           is_out (chase_link legacy f (0, 884)) (OOBW 8)) False.
+Proof. exact link_file_part_refuted. Qed.
+Print Assumptions C13_link_file_part_refuted.
 
-(* a link whose target path passes through the link itself: Get_Node_ID -> chase_link -> Get_Node_ID ... nests
-   deeper than LINK_FUEL = 48 (in the C: unbounded recursion, link_depth is a local of each activation) *)
+(* 04. a link whose target path passes through the link itself: Get_Node_ID -> chase_link -> Get_Node_ID ... nests
+   deeper than any fuel (in the C: unbounded recursion, link_depth is a local of each activation) *)
 Theorem C13_link_recursion_refuted :
-  exists bs, on_open bs (fun f r => get_node_id LINK_FUEL f r [76] = Ok (0, 884) /\
-                                    match chase_link f (0, 884) with OutOfFuel => True | _ => False end) False.
+  exists bs, on_open legacy bs (fun f r => get_node_id_top legacy f r [76] = Ok (0, 884) /\
+                                           is_out (chase_link legacy f (0, 884)) OutOfFuel) False.
 Proof. exact link_recursion_refuted. Qed.
 Print Assumptions C13_link_recursion_refuted.
 
-(* format byte NUL: assert(ADF_file[..].format != UNDEFINED_FORMAT) in ADFI_read_file_header *)
-Theorem C13_abort_refuted : exists bs, database_open bs = Abort.
+(* 05. format byte NUL: assert(format != UNDEFINED_FORMAT); format byte 0xFF: shift of a negative char *)
+Theorem C13_abort_refuted : exists bs, database_open legacy bs = Abort.
 Proof. exact abort_refuted. Qed.
 Print Assumptions C13_abort_refuted.
+Theorem C13_format_shift_refuted : exists bs, database_open legacy bs = UB.
+Proof. exact format_shift_refuted. Qed.
+Print Assumptions C13_format_shift_refuted.
 
-(* "TaiL" -> "XaiL": ADFI_stridx_c scans beyond char disk_node_data[246] *)
+(* 06. "TaiL" -> "XaiL": ADFI_stridx_c scans beyond char disk_node_data[246] *)
 Theorem C13_tagscan_refuted :
-  exists bs, on_open bs (fun f r => match read_node_header f r with OOBR 5 => True | _ => False end) False.
+  exists bs, on_open legacy bs (fun f r => is_out (read_node_header legacy f r) (OOBR 5)) False.
 Proof. exact tagscan_refuted. Qed.
 Print Assumptions C13_tagscan_refuted.
 
-(* file cut inside the root node header: ADFI_read_file hands out buffer bytes it never read *)
+(* 07 / 08 / 14 / 15. the caller's data buffer: I4[99999999999999]; a node typed I4,I4 read as I4; a header that
+   declares sizeof(int) = 8; the zero fill of missing data; a data chunk of negative length *)
+Theorem C13_datatype_overflow_refuted : exists bs, data_of legacy bs [73; 52] 4 = UB.
+Proof. exact datatype_overflow_refuted. Qed.
+Print Assumptions C13_datatype_overflow_refuted.
+Theorem C13_compound_type_refuted : exists bs, data_of legacy bs [73; 52] 4 = OOBW 7.
+Proof. exact compound_type_refuted. Qed.
+Print Assumptions C13_compound_type_refuted.
+Theorem C13_header_sizes_refuted : exists bs, data_of legacy bs [73; 52] 4 = OOBW 7.
+Proof. exact header_sizes_refuted. Qed.
+Print Assumptions C13_header_sizes_refuted.
+Theorem C13_zero_fill_refuted : exists bs, data_of legacy bs [73; 52] 4 = OOBW 7.
+Proof. exact zero_fill_refuted. Qed.
+Print Assumptions C13_zero_fill_refuted.
+Theorem C13_negative_chunk_refuted : exists bs, data_of legacy bs [73; 52] 8 = OOBW 6.
+Proof. exact negative_chunk_refuted. Qed.
+Print Assumptions C13_negative_chunk_refuted.
+
+(* 13. file cut inside the root node header: ADFI_read_file hands out buffer bytes it never read *)
 Theorem C13_stale_refuted :
-  exists bs, on_open bs (fun f r => match read_node_header f r with Stale => True | _ => False end) False.
+  exists bs, on_open legacy bs (fun f r => is_out (read_node_header legacy f r) Stale) False.
 Proof. exact stale_refuted. Qed.
 Print Assumptions C13_stale_refuted.
 
-(* child pointer redirected to an ancestor: the walk exhausts ANY amount of fuel *)
-Theorem C13_cycle_refuted : exists bs, forall n, last (walk_events (walk n bs)) (EvD 0) = EvFuel.
-Proof. exact cycle_refuted. Qed.
-Print Assumptions C13_cycle_refuted.
-
-Theorem C13_full_refuted : ~ C13_full.
+Definition C13_full (c : fixes) : Prop := forall bs n, walk_safe (walk c n bs).
+Theorem C13_full_refuted : ~ C13_full legacy.
 Proof.
-  intros H. specialize (H wit_oobw 5%nat). vm_compute in H. discriminate.
+  intros H. specialize (H wit_oobw 5%nat). vm_compute in H. inversion H as [|? ? ? H1]; subst.
+  repeat match goal with H : Forall _ (_ :: _) |- _ => inversion H; subst; clear H end; assumption.
 Qed.
 Print Assumptions C13_full_refuted.
 
-(* non-vacuity: the valid witness opens and walks cleanly *)
+(* every one of these files is rejected with an error code by the repaired code *)
+Example C13_witnesses_rejected_when_repaired :
+  on_open repaired wit_oobw (fun f r => get_node_id_top repaired f r [66]) (Err 0) = Err 24 /\
+  database_open repaired wit_oobr = Ok ({| f_bytes := wit_oobr; f_len := 1376; f_attr := wa |}, (0, 266)) /\
+  on_open repaired wit_oobr (fun f r => read_node_header repaired f r) (Err 0) = Err 24 /\
+  data_of repaired wit_dct [73; 52] 8 = Err 17 /\
+  on_open repaired wit_biglink (fun f r => chase_link repaired f (0, 884)) (Err 0) = Err 47 /\
+  on_open repaired wit_neglink (fun f r => chase_link repaired f (0, 884)) (Err 0) = Err 47 /\
+  on_open repaired wit_hugelink (fun f r => chase_link repaired f (0, 884)) (Err 0) = Err 47 /\
+  on_open repaired wit_toklink (fun f r => chase_link repaired f (0, 884)) (Err 0) = Err 31 /\
+  on_open repaired wit_longfile (fun f r => chase_link repaired f (0, 884)) (Err 0) = Err 4 /\
+  on_open repaired wit_linkrec (fun f r => chase_link repaired f (0, 884)) (Err 0) = Err 50 /\
+  database_open repaired wit_abort = Err 19 /\ database_open repaired wit_fmtneg = Err 19 /\
+  on_open repaired wit_tagscan (fun f r => read_node_header repaired f r) (Err 0) = Err 17 /\
+  on_open repaired wit_stale (fun f r => read_node_header repaired f r) (Err 0) = Err 15 /\
+  data_of repaired wit_dtov [73; 52] 4 = Err 31 /\ data_of repaired wit_rtype [73; 52] 4 = Err 31 /\
+  data_of repaired wit_sizes [73; 52] 4 = Err 41 /\ data_of repaired wit_radset [73; 52] 4 = Ok (55, []) /\
+  data_of repaired wit_radneg [73; 52] 8 = Err 17.
+Proof. exact witnesses_rejected_when_repaired. Qed.
+
+(* non-vacuity: the valid witness opens and walks cleanly in both states *)
 Example C13_valid_witness_clean :
   forallb (fun e => match e with EvG r => clean r | EvN _ r => clean r | EvFuel => false | _ => true end)
-          (walk_events (walk 10 wit_valid)) = true.
-Proof. exact (proj2 wit_valid_ok). Qed.
+          (walk_events (walk repaired 10 wit_valid)) = true /\
+  forallb (fun e => match e with EvG r => clean r | EvN _ r => clean r | EvFuel => false | _ => true end)
+          (walk_events (walk legacy 10 wit_valid)) = true.
+Proof. split; [exact (proj2 (wit_valid_ok repaired (or_intror eq_refl)))|exact (proj2 (wit_valid_ok legacy (or_introl eq_refl)))]. Qed.
 
-(* ---- 6. the repair proposed in notes/C13.md (reject a table that does not fit the caller's buffer, bound the
-        name loop by what was read) closes site 1 for EVERY file, parent pointer and name *)
-Theorem C13_no_oob_with_fix : forall f parent name, safe1 (check_4_child_name_gen true f parent name).
-Proof. exact check_4_child_name_fixed_safe. Qed.
-Print Assumptions C13_no_oob_with_fix.
+(* ---- 6. the repaired code.  C13_no_oob: opening ANY byte string and walking it with ANY fuel yields, in every
+        event the client sees (and in the open itself), none of OOBW / OOBR / Uninit / Stale / Abort / UB.  The
+        client is harness/c13_adf.c: buffers of ADF_NAME_LENGTH+1 .. , link buffers of 5200 bytes, a data buffer of
+        mach_size(type) * count bytes, the type named to ADF_Read_All_Data being the one ADF_Get_Data_Type returned *)
+Theorem C13_no_oob : forall bs fuel, walk_safe (walk repaired fuel bs).
+Proof. exact walk_repaired_safe. Qed.
+Print Assumptions C13_no_oob.
+
+(* the same for the single operations on an open file, for every node ID, name and header they may be handed:
+   no abort and no tag over-scan in ADFI_read_node_header, no overflow of sub_node_table[] in
+   ADFI_check_4_child_name, of link_data[] / tokenized_data_type[] / link_file[] / link_path[] in
+   ADF_Get_Link_Path and ADFI_chase_link, of the caller's buffer in ADF_Read_All_Data *)
+Theorem C13_no_oob_operations : forall bs f root, database_open repaired bs = Ok (f, root) ->
+  (forall id name, safe (check_4_child_name repaired f id name)) /\ (forall id name, safe (get_node_id_top repaired f id name)) /\
+  (forall id, safe (chase_link repaired f id)) /\ (forall id, safe (get_link_path repaired f id 1025 4097)) /\
+  (forall id, safe (read_node_header repaired f id)) /\
+  (forall h t, 0 < mach_size t -> 0 <= prod_dims h -> prod_dims h * mach_size t <= DATA_CAP -> 0 <= nh_nchunks h ->
+               safe (read_all_data repaired f h t (prod_dims h * mach_size t))).
+Proof. exact ops_repaired_safe. Qed.
+Print Assumptions C13_no_oob_operations.
+
+Theorem C13_open_never_aborts : forall bs, safe (database_open repaired bs).
+Proof. exact database_open_safe. Qed.
+Print Assumptions C13_open_never_aborts.
+
+(* ---- 7. C13_link_recursion_bounded: ADF_Get_Node_ID / ADFI_chase_link of the repaired code give, for every file,
+        node and name, the same answer with any fuel from 101 units on: the nesting is cut by the code
+        (LINKS_TOO_DEEP at 100 nested activations), not by the fuel of the model *)
+Theorem C13_link_recursion_bounded : forall f pid name id fuel, (101 <= fuel)%nat ->
+  get_node_id repaired fuel f 0 pid name = get_node_id_top repaired f pid name /\
+  chase_at repaired (get_node_id repaired (pred fuel) f 1) f 0 id = chase_link repaired f id.
+Proof. exact link_recursion_bounded. Qed.
+Print Assumptions C13_link_recursion_bounded.
+
+(* ---- 8. what no repair of the ADF core changes: a child pointer redirected to an ancestor makes the CLIENT's walk
+        exhaust any amount of fuel (both states) *)
+Theorem C13_cycle_refuted : forall c, c = legacy \/ c = repaired ->
+  exists bs, forall n, last (walk_events (walk c n bs)) (EvD 0) = EvFuel.
+Proof. exact cycle_refuted. Qed.
+Print Assumptions C13_cycle_refuted.
